@@ -64,6 +64,12 @@ def rotationLink (w : Rat) (a o f0 : V3) : V3 := rotP w a o f0
 /-- `LinkBase.update()`: the follower becomes `transform()`, the leader stays what the caller set it to -/
 def Link.update (l : Link) (transform : V3 → V3) : Link := { leader := l.leader, follower := transform l.leader }
 
+/-- a history of a link: the caller moves the leader (by assigning a new array or by changing the array in
+    place — the model has values, not arrays, so both are the same) and calls `update()`, again and again -/
+def Link.run (l : Link) (transform : V3 → V3) : List V3 → Link
+  | [] => l
+  | p :: ps => Link.run (Link.update { l with leader := p } transform) transform ps
+
 /-- radius vector of `p` about the axis `(o, a)`, times `|a|²` (no division): `|a|²(p − o) − ((p − o)·a) a` -/
 def radial (a o p : V3) : V3 := V3.smul (V3.dot a a) (p - o) - V3.smul (V3.dot (p - o) a) a
 
